@@ -40,6 +40,29 @@ def run(chk: Check, proj: Project) -> None:
     s3(chk, proj, w, m, f)
     s4(chk, proj, w)
     s5(chk, proj, w)
+    s6(chk, proj, w)
+
+
+def s6(chk: Check, proj: Project, w) -> None:
+    chk.rule("S6", "the implicit default fill exists iff the tag body has a node that is not whitespace-only text (a quantifier over ALL nodes); what component_post_render returns is safe HTML (mark_safe), so the nested placeholder survives escaping steps")
+    m, f = proj.func("slots", "resolve_fills")
+    nl = params(f)[1]
+    ev = local_from(f, lambda v: any(isinstance(x, ast.Call) and norm(x.func) == "all" for x in ast.walk(v)) or "len(" in norm(v))
+    d = assignments(f, ev) if ev else []
+    ok = False
+    if d and d[0][1] is not None:
+        v = d[0][1]
+        alls = [x for x in ast.walk(v) if isinstance(x, ast.Call) and norm(x.func) == "all" and x.args and isinstance(x.args[0], ast.GeneratorExp)]
+        ok = bool(alls) and norm(alls[0].args[0].generators[0].iter) == nl and "isinstance(" in norm(alls[0].args[0].elt) and "TextNode" in norm(alls[0].args[0].elt) and ".strip()" in norm(alls[0].args[0].elt)
+    chk.ob("S6", "slots:resolve_fills:body-empty-iff-all-nodes-blank", m.loc(d[0][0]) if d else m.loc(f), ok if d else None,
+           "the body counts as empty iff ALL nodes are whitespace-only TextNodes" if ok else
+           "the 'body is empty' test does not quantify over all nodes of the body: a body of whitespace plus template comments (several blank TextNodes) is taken as an implicit default fill, so the default slot prints blanks, is_filled.default is true and a required default slot no longer raises")
+    pm, pf = proj.func("perfutil.component", "component_post_render")
+    rets = [r for r in stmts(pf) if isinstance(r, ast.Return) and r.value is not None]
+    bad = [r for r in rets if not (isinstance(r.value, ast.Call) and last_attr(r.value.func) == "mark_safe")]
+    chk.ob("S6", "perfutil.component:component_post_render:returns-safe-html", pm.loc(bad[0]) if bad else pm.loc(pf), not bad and len(rets) >= 2,
+           "both the nested placeholder and the final document are returned as mark_safe(...)" if not bad else
+           f"`{short(bad[0])}` returns a plain str: a placeholder that passes an escaping step (a slot function's result under escape_slots_content, format_html, an autoescaped variable) is HTML-escaped and never substituted, so the nested component's output is missing")
 
 
 def s1(chk: Check, proj: Project, w, m, f) -> None:
